@@ -70,6 +70,13 @@ impl CleanMarkerStore {
             .write()
             .map_err(|_| std::io::Error::new(std::io::ErrorKind::Other, "store lock poisoned"))?;
         for (topic, record) in updates {
+            // Never replace a newer state with an older snapshot (the background persister and
+            // a synchronous flush may race).
+            if let Some(existing) = guard.get(topic) {
+                if existing.generation > record.generation {
+                    continue;
+                }
+            }
             guard.insert(topic.clone(), record.clone());
         }
         Self::persist_map(&self.path, &guard)
@@ -150,16 +157,7 @@ impl Drop for TopicCleanTracker {
         // The background persister only holds a weak reference and stops as soon as the tracker
         // is gone, dropping whatever it had not written yet. Flush the current state of every
         // topic so that a marker change that has returned survives a clean shutdown.
-        let snapshot: Vec<(String, CleanMarkerRecord)> = match self.states.read() {
-            Ok(guard) => guard
-                .iter()
-                .map(|(topic, state)| (topic.clone(), state.snapshot()))
-                .collect(),
-            Err(_) => return,
-        };
-        if let Err(err) = self.store.persist_updates(&snapshot) {
-            debug_print!("[clean] persist on drop failed: {}", err);
-        }
+        self.flush_all();
     }
 }
 
@@ -173,6 +171,20 @@ impl TopicCleanTracker {
         });
         Self::spawn_persister(&tracker, rx);
         tracker
+    }
+
+    /// Synchronously persist the current state of every topic.
+    pub fn flush_all(&self) {
+        let snapshot: Vec<(String, CleanMarkerRecord)> = match self.states.read() {
+            Ok(guard) => guard
+                .iter()
+                .map(|(topic, state)| (topic.clone(), state.snapshot()))
+                .collect(),
+            Err(_) => return,
+        };
+        if let Err(err) = self.store.persist_updates(&snapshot) {
+            debug_print!("[clean] marker flush failed: {}", err);
+        }
     }
 
     pub fn hydrate(&self, snapshot: HashMap<String, CleanMarkerRecord>) {
